@@ -107,7 +107,8 @@ def run_batch(adapter, tier, base, nruns, workers, soft_deadline_s, start=0):
     _ADAPTER = adapter
     t0 = time.time()
     idxs = list(range(start, start + nruns))
-    chunks = [idxs[k:k + CHUNK] for k in range(0, len(idxs), CHUNK)]
+    chunk = getattr(adapter, 'CHUNK', CHUNK)
+    chunks = [idxs[k:k + chunk] for k in range(0, len(idxs), chunk)]
     agg = {'n': 0, 'digests': set(), 'nontrivial': set(), 'stats': {}, 'violations': [], 'harness_errors': [],
            'states': set(), 'diagnostics': [], 'samples': [], 'stopped_by_deadline': False, 'chunks_done': 0, 'known': {}, 'run_digests': []}
     ctx = multiprocessing.get_context('fork')
